@@ -455,7 +455,78 @@ def r4(prog, ctx, markers):
             ctx.ok("R4", "%s:%d" % (m.rel, mst.lineno), "%s: nothing is written after marker %s" % (q, src(path)))
 
 
+def r5(prog, ctx):
+    """State gathered by a stage that --resume may skip must be restored on the skip path if later stages read it."""
+    from ..engine import carried
+    cls = prog.cls(DSP, "DatasetProcessor")
+    lin = carried.Linearizer(prog, cls)
+    ps = prog.func(DSP, "DatasetProcessor.process_sample")
+    n = 0
+    for q, f in sorted(prog.module(DSP).functions.items()):
+        if getattr(f, "_class", None) is not cls:
+            continue
+        skips = []
+        for r in walk_no_nested(f):
+            if isinstance(r, ast.Return):
+                facts = [src(t) for t, p in flow.guard_facts(r, stop=f) if p]
+                if any("resume" in x for x in facts) and any("os.path.exists(" in x for x in facts):
+                    skips.append(r)
+        if not skips:
+            continue
+        for r in skips:
+            n += 1
+            seq = lin.run(f.name)
+            written = {}
+            for loc, kind, uncond, fn, st in seq:
+                if kind in ("write", "rmw") and st.lineno > r.lineno and fn is f or (kind in ("write", "rmw") and fn is not f):
+                    written.setdefault(loc, st)
+            # what later stages read: everything process_sample does after calling this stage
+            later_reads = set()
+            call_line = None
+            for st in ast.walk(ps):
+                if isinstance(st, ast.Call) and call_name(st) == "self." + f.name:
+                    call_line = st.lineno
+            if call_line is None:
+                continue
+            pseq = lin.run("process_sample")
+            restored_after = set()
+            seen_call = False
+            for loc, kind, uncond, fn, st in pseq:
+                if fn is ps and st.lineno > call_line:
+                    seen_call = True
+                if not seen_call:
+                    continue
+                if fn is f:
+                    continue
+                if kind == "write" and uncond and loc not in later_reads:
+                    restored_after.add(loc)
+                if kind in ("read", "rmw"):
+                    later_reads.add(loc)
+            blk = r._parent.body if hasattr(r._parent, "body") else []
+            restored_here = set()
+            for st in blk:
+                if isinstance(st, ast.Assign):
+                    for t in st.targets:
+                        d = dotted(t)
+                        if d:
+                            restored_here.add(".".join(d.split(".")[:3] if d.startswith("self.args.") else d.split(".")[:2]))
+            for loc in sorted(written):
+                if loc not in later_reads:
+                    continue
+                if loc in restored_here or loc in restored_after:
+                    ctx.ok("R5", "%s:%d" % (DSP, r.lineno), "%s: %s (filled by the skipped stage, read later) is restored %s"
+                           % (q, loc, "on the skip path" if loc in restored_here else "right after the call"))
+                else:
+                    ctx.fail("R5", r, q, "return  # skip under --resume, %s not restored" % loc,
+                             "%s is filled by this stage (%s) and read by later stages, but the --resume skip path returns without "
+                             "restoring it: a resumed run works with the initial value where an uninterrupted run has the real one"
+                             % (loc, src(written[loc])[:70]))
+    ctx.floor("R5", "resume skip paths in DatasetProcessor methods", n, 1)
+
+
 def run(prog, ctx):
+    ctx.rule("R5", "for every DatasetProcessor method with a --resume skip return: each self.* location it fills after that point and "
+                   "that later stages of process_sample read must be assigned on the skip path or unconditionally right after the call")
     ctx.rule("R1", "file-owning classes are derived from open(..., write) stored in constructors (transitively through owned "
                    "fields); each must have close() closing all it owns and must not write data in __del__; in every marker-"
                    "creating function each local bound to such a class (or to a write handle) is .close()d on every path between "
@@ -483,6 +554,7 @@ def run(prog, ctx):
     r2(prog, ctx, stage_markers, kinds)
     r3(prog, ctx, stage_markers, kinds)
     r4(prog, ctx, stage_markers)
+    r5(prog, ctx)
     ctx.assume("byte-equality of recomputed outputs, the .params pickle and external tools are not decided")
     ctx.assume("CPython reference counting is NOT assumed: __del__ and implicit closing of unreferenced files count as 'late'")
     ctx.assume("the read-mapping stage (minimap2) is outside the analysed closure's resume protocol")
